@@ -69,6 +69,14 @@ def gen_composite(rng, depth, names, small_caps=False, allow_delim=True, force=N
             fs.append([None, {"k": "void", "w": rng.choice([1, 2, 3, 7, 8, 13, 32, 64])}])
         else:
             fs.append(["f%d" % i, gen_type(rng, depth, names, small_caps, allow_delim=allow_delim)])
+    if nf >= 2 and rng.random() < 0.2:
+        # two members whose length sets agree in min, max and residues modulo 32 but differ as sets
+        w = rng.choice([32, 64])
+        k = rng.choice([1, 2, 3])
+        fs[0] = ["f0", {"k": "var", "e": {"k": "prim", "p": "uint", "w": 2 * w if w == 32 else 64, "c": "sat"}, "n": k}]
+        fs[1] = ["f1", {"k": "var", "e": {"k": "prim", "p": "uint", "w": w if w == 32 else 32, "c": "sat"}, "n": 2 * k}]
+        if rng.random() < 0.5:
+            fs[0], fs[1] = ["f0", fs[1][1]], ["f1", fs[0][1]]
     t = {"k": kind, "name": names.fresh(), "ver": [1, 0], "fs": fs}
     if allow_delim and rng.random() < 0.35:
         mx = max_len(t)
